@@ -8,14 +8,18 @@ from hsverif import localnames
 
 root = sys.argv[1] if len(sys.argv) > 1 else "/repo"
 out = {}
+units = {}
 for dp, dn, fs in os.walk(os.path.join(root, "happysimulator")):
     dn[:] = sorted(d for d in dn if d != "__pycache__")
     for f in sorted(fs):
         if f.endswith(".py"):
             p = os.path.join(dp, f)
             rel = os.path.relpath(p, root).replace(os.sep, "/")
-            rec = localnames.record(ast.parse(open(p, encoding="utf-8").read()))
+            tree = ast.parse(open(p, encoding="utf-8").read())
+            rec = localnames.record(tree)
             if rec:
                 out[rel] = rec
+            units[rel] = sorted({q for q, _ in localnames.units(tree)})
+out["__units__"] = units
 json.dump(out, open(localnames.REF_PATH, "w"), indent=0, sort_keys=True)
-print(len(out), "modules,", sum(len(v) for v in out.values()), "functions,", sum(len(x) for v in out.values() for x in v.values()), "locals ->", localnames.REF_PATH)
+print(len(units), "modules,", sum(len(v) for v in units.values()), "functions ->", localnames.REF_PATH)
